@@ -260,7 +260,7 @@ Section Reveal.
 
   (* what (left, right) must satisfy k pointers into the revealed list, and the shape of that list *)
   Definition J (l : left) (r : state) (k : nat) : Prop :=
-    length (s_bo r) = length (s_words r) /\ (l_full l = false -> length (l_ptrs l) = length (s_words r) + k).
+    length (s_bo r) = length (s_words r) /\ (l_full l = false -> length (l_ptrs l) <= length (s_words r) + k).
   Fixpoint chain (k : nat) (P : list key) : Prop :=
     match P with [] => True | p :: P' => length p = S k /\ S k <= N_order - 1 /\ chain (S k) P' end.
 
@@ -1418,5 +1418,192 @@ Section RevealBefore.
       destruct (reveal_before N_order T dr rv (length (s_words rv)) true l1 r1) as [[a2 l2] r2].
       rewrite HF in H1. exact H1.
     - destruct (reveal_before N_order T dr rv 0 false (c_left (fst B)) (c_right (fst B))) as [[a1 l1] r1]. cbn [fst] in H1. lia.
+  Qed.
+
+  (* ---- both sides: all of the preceding context in instalments, then all of the following fragment's pointers in instalments --- *)
+  Lemma xw_len : forall add al P w a nu back rest w' a' mf nu' back',
+    ext_write N_order T add al P w a nu back = (rest, w', a', mf, nu', back') -> length w' <= length w + length P.
+  Proof.
+    intros add al P. induction P as [|p P IH]; intros w a nu back rest w' a' mf nu' back' H; cbn [ext_write] in H.
+    - injection H as <- <- <- <- <- <-. cbn [length]. lia.
+    - destruct (el (firstn nu add) back p) as [[ret bo] nu1]. cbn [length].
+      destruct (r_indep ret); [injection H as <- <- <- <- <- <-; lia|].
+      destruct (negb (Nat.eqb nu1 al)); [injection H as <- <- <- <- <- <-; rewrite app_length; cbn [length]; lia|].
+      specialize (IH _ _ _ _ _ _ _ _ _ _ H). rewrite app_length in IH. cbn [length] in IH. lia.
+  Qed.
+
+  Lemma xl_shape : forall add bs P write,
+    let '(v, w, bw) := extend_loop N_order T dr add bs P write in
+    length w <= length P /\ (write = false -> w = [] /\ x_make_full v = false) /\
+    (x_make_full v = false -> write = true -> length w = length P /\ x_next_use v = length add).
+  Proof.
+    intros add bs P write. destruct write.
+    - rewrite (xl_write N_order T dr). unfold fin2.
+      destruct (ext_write N_order T add (length add) P [] 0%Z (length add) (firstn (length add) bs)) as [[[[[rest1 w1] a1] mf] nu1] b1] eqn:E1.
+      pose proof (xw_len _ _ _ _ _ _ _ _ _ _ _ _ _ E1) as HL. cbn [length] in HL.
+      destruct (ext_full N_order T add rest1 a1 nu1 b1) as [[[rest2 a2] nu2] b2] eqn:E2. cbn [x_make_full x_next_use].
+      split; [lia|]. split; [intros H; discriminate|]. intros Hm _. subst mf.
+      destruct (xw_nobreak N_order Hord T _ _ _ _ _ _ _ _ _ _ _ _ E1) as [-> [K1 [K2 [wn [K3 K4]]]]]. cbn [app] in K3. subst w1.
+      cbn [ext_full] in E2. injection E2 as <- <- <- <-. split; [exact K4|].
+      destruct P as [|q Q]; [destruct (K2 eq_refl) as [-> _]; reflexivity|apply K1; discriminate].
+    - rewrite (xl_full N_order T dr). unfold fin2.
+      destruct (ext_full N_order T add P 0%Z (length add) (firstn (length add) bs)) as [[[rest2 a2] nu2] b2]. cbn [x_make_full length].
+      split; [lia|]. split; [intros _; split; reflexivity|]. intros _ H; discriminate.
+  Qed.
+
+  Lemma chain_count : forall P k, chain N_order k P -> P = [] \/ k + length P <= N_order - 1.
+  Proof.
+    induction P as [|p P IH]; intros k H; [left; reflexivity|]. right. destruct H as [_ [H2 H3]].
+    destruct (IH _ H3) as [E|E]; [subst P; cbn [length]; lia|cbn [length]; lia].
+  Qed.
+
+  (* the state RevealBefore leaves after the whole preceding context is the right state of the concatenation, and its
+     completeness flag is that of the concatenation's left state *)
+  Lemma rb_state_is_concat : forall us ws, Forall (known T) us -> Forall (known T) ws ->
+    let U := fin (flatf rs_init us) in
+    let Mf := fin (flatf rs_init ws) in
+    let '(a, lb, rb) := reveal_before N_order T dr (c_right (fst U)) 0 (l_full (c_left (fst U))) (c_left (fst Mf)) (c_right (fst Mf)) in
+    let UM := fin (flatf rs_init (us ++ ws)) in
+    rb = c_right (fst UM) /\ l_full lb = l_full (c_left (fst UM)) /\ a = (snd UM - snd U - snd Mf)%Z /\
+    (l_full lb = false -> length (l_ptrs lb) <= length (s_words rb)).
+  Proof.
+    intros us ws Hu Hw U Mf.
+    assert (W0 : wf rs_init) by (constructor; cbn; [reflexivity|constructor|reflexivity]).
+    assert (WU : wf (flatf rs_init us)) by (apply flat_wf; [exact Hord|exact W0]).
+    assert (WM : wf (flatf rs_init ws)) by (apply flat_wf; [exact Hord|exact W0]).
+    pose proof (fin_cwf N_order _ WU) as CU. fold U in CU. pose proof (fin_cwf N_order _ WM) as CM. fold Mf in CM.
+    assert (WUM : wf (flatf rs_init (us ++ ws))) by (apply flat_wf; [exact Hord|exact W0]).
+    pose proof (fin_cwf N_order _ WUM) as CUM.
+    assert (HCM : chain N_order 0 (l_ptrs (c_left (fst Mf)))).
+    { unfold Mf. rewrite fin_eq. cbn [fst mkchart c_left l_ptrs]. apply (flat_chain N_order Hord T M Inv ext_ctx); [exact W0|exact Hw|exact I]. }
+    assert (HMfull : l_full (c_left (fst Mf)) = false -> length (l_ptrs (c_left (fst Mf))) <> N_order - 1).
+    { unfold Mf. rewrite fin_eq. cbn [fst mkchart c_left l_ptrs l_full]. intros H. apply orb_false_iff in H. destruct H as [_ H]. apply Nat.eqb_neq in H. exact H. }
+    destruct (subsume N_order T dr (c_left (fst U)) (c_right (fst U)) (c_left (fst Mf)) (c_right (fst Mf))) as [[adj l'] r'] eqn:ES.
+    pose proof (subsume_flat N_order Hord T M Inv dr rest_dr ext_ctx us ws Hu Hw adj l' r' ES) as HF.
+    fold U Mf in HF. set (UM := fin (flatf rs_init (us ++ ws))) in *.
+    clearbody U Mf UM.
+    unfold subsume in ES. unfold reveal_before. cbn [skipn].
+    pose proof (xl_shape (s_words (c_right (fst U))) (s_bo (c_right (fst U))) (l_ptrs (c_left (fst Mf))) (negb (l_full (c_left (fst U))))) as HS.
+    destruct (extend_loop N_order T dr (s_words (c_right (fst U))) (s_bo (c_right (fst U))) (l_ptrs (c_left (fst Mf))) (negb (l_full (c_left (fst U)))))
+      as [[v w] bw] eqn:EX.
+    destruct HS as [S1 [S2 S3]].
+    rewrite fin_eq in HF. cbn [mkrs rs_ptrs rs_done rs_right rs_prob] in HF.
+    destruct CU as [U1 U2 U3]. destruct CM as [M1 M2 M3]. destruct CUM as [X1 X2 X3].
+    destruct (l_full (c_left (fst Mf))) eqn:EfM.
+    - (* the fragment's left state was complete already *)
+      injection ES as <- <- <-.
+      assert (HUM : UM = (mkchart (l_ptrs (if l_full (c_left (fst U)) then c_left (fst U)
+                                      else {| l_ptrs := l_ptrs (c_left (fst U)) ++ w;
+                                              l_full := orb (x_make_full v) (orb true (Nat.eqb (length (l_ptrs (c_left (fst U)) ++ w)) (N_order - 1))) |}))
+                                  (orb (l_full (if l_full (c_left (fst U)) then c_left (fst U)
+                                      else {| l_ptrs := l_ptrs (c_left (fst U)) ++ w;
+                                              l_full := orb (x_make_full v) (orb true (Nat.eqb (length (l_ptrs (c_left (fst U)) ++ w)) (N_order - 1))) |}))
+                                       (Nat.eqb (length (l_ptrs (if l_full (c_left (fst U)) then c_left (fst U)
+                                      else {| l_ptrs := l_ptrs (c_left (fst U)) ++ w;
+                                              l_full := orb (x_make_full v) (orb true (Nat.eqb (length (l_ptrs (c_left (fst U)) ++ w)) (N_order - 1))) |}))) (N_order - 1)))
+                                  (c_right (fst Mf)),
+                          (snd U + snd Mf + (x_adjust v + sum_bo bw))%Z)) by (symmetry; exact HF).
+      rewrite HUM. cbn [fst snd mkchart c_left c_right l_full].
+      split; [reflexivity|]. split.
+      + destruct (l_full (c_left (fst U))) eqn:EfU; cbn [l_full orb]; [rewrite EfU; reflexivity|rewrite orb_true_r; reflexivity].
+      + split; [lia|]. cbn [l_full]. intros H; discriminate.
+    - (* the fragment's left state was open: the words still in use are appended to its right state *)
+      assert (Hm : length (l_ptrs (c_left (fst Mf))) <= N_order - 2).
+      { pose proof (HMfull eq_refl). destruct (chain_count _ _ HCM) as [E|E]; [rewrite E; cbn; lia|lia]. }
+      specialize (M3 eq_refl).
+      destruct (l_full (c_left (fst U))) eqn:EfU; cbn [negb] in *.
+      + injection ES as <- <- <-. rewrite <- HF.
+        cbn [fst snd mkchart c_left c_right l_full l_ptrs s_words s_bo orb]. rewrite EfU. cbn [orb].
+        split; [reflexivity|]. split; [reflexivity|]. split; [lia|]. intros H; discriminate.
+      + specialize (U3 eq_refl).
+        injection ES as <- <- <-. rewrite <- HF.
+        cbn [fst snd mkchart c_left c_right l_full l_ptrs s_words s_bo orb].
+        split; [reflexivity|].
+        replace (Nat.eqb (length w) (N_order - 1)) with false by (symmetry; apply Nat.eqb_neq; lia).
+        rewrite orb_false_r.
+        split.
+        * destruct (x_make_full v) eqn:Emf; cbn [orb]; [reflexivity|].
+          destruct (S3 eq_refl eq_refl) as [Sw Snu]. rewrite Snu, firstn_all.
+          rewrite !app_length. rewrite Sw, U3, M3.
+          replace (length (s_words (c_right (fst U))) + length (s_words (c_right (fst Mf))))
+            with (length (s_words (c_right (fst Mf))) + length (s_words (c_right (fst U)))) by lia.
+          destruct (Nat.eqb (length (s_words (c_right (fst Mf))) + length (s_words (c_right (fst U)))) (N_order - 1)); reflexivity.
+        * split; [lia|]. intros _. rewrite app_length. lia.
+  Qed.
+
+  Theorem reveal_both_sides : forall us ws vs cb cutsb ca cutsa,
+    Forall (known T) us -> Forall (known T) ws -> Forall (known T) vs ->
+    let U := fin (flatf rs_init us) in
+    let Mf := fin (flatf rs_init ws) in
+    let V := fin (flatf rs_init vs) in
+    let rv := c_right (fst U) in
+    let P := l_ptrs (c_left (fst V)) in
+    sincreasing 0 (cb :: cutsb) (length (s_words rv)) -> last cutsb cb = length (s_words rv) ->
+    increasing 0 (ca :: cutsa) (length P) -> last cutsa ca = length P ->
+    let '(a1, l1, r1) := rb_seq (s_words rv) (s_bo rv) (c_left (fst Mf)) (c_right (fst Mf)) 0 (cb :: cutsb) in
+    let '(a2, l2, r2) := if l_full (c_left (fst U)) then reveal_before N_order T dr rv (length (s_words rv)) true l1 r1 else (0%Z, l1, r1) in
+    let '(a3, l3, r3) := ra_seq N_order T dr l2 r2 P 0 (ca :: cutsa) in
+    let '(a4, l4, r4) := if l_full (c_left (fst V)) then reveal_after N_order T dr l3 r3 {| l_ptrs := P; l_full := true |} (length P) else (0%Z, l3, r3) in
+    (a1 + a2 + a3 + a4)%Z = (snd (fin (flatf rs_init (us ++ ws ++ vs))) - snd U - snd Mf - snd V)%Z.
+  Proof.
+    intros us ws vs cb cutsb ca cutsa Hu Hw Hv U Mf V rv P Hib Hlb Hia Hla.
+    assert (W0 : wf rs_init) by (constructor; cbn; [reflexivity|constructor|reflexivity]).
+    assert (WU : wf (flatf rs_init us)) by (apply flat_wf; [exact Hord|exact W0]).
+    assert (WM : wf (flatf rs_init ws)) by (apply flat_wf; [exact Hord|exact W0]).
+    pose proof (fin_cwf N_order _ WU) as CU. fold U in CU. pose proof (fin_cwf N_order _ WM) as CM. fold Mf in CM.
+    assert (Hsw : length (s_bo rv) = length (s_words rv)) by (destruct CU as [C1 _ _]; exact C1).
+    assert (HrvN : length (s_words rv) <= N_order - 1).
+    { unfold rv, U. rewrite fin_eq. cbn [fst mkchart c_right]. apply flat_right_len. cbn. lia. }
+    assert (HCM : chain N_order 0 (l_ptrs (c_left (fst Mf)))).
+    { unfold Mf. rewrite fin_eq. cbn [fst mkchart c_left l_ptrs]. apply (flat_chain N_order Hord T M Inv ext_ctx); [exact W0|exact Hw|exact I]. }
+    assert (HCV : chain N_order 0 P).
+    { unfold P, V. rewrite fin_eq. cbn [fst mkchart c_left l_ptrs]. apply (flat_chain N_order Hord T M Inv ext_ctx); [exact W0|exact Hv|exact I]. }
+    assert (HJ : BJ (c_left (fst Mf)) (c_right (fst Mf)) 0).
+    { destruct CM as [C1 C2 C3]. split; [exact (chain_good _ _ HCM)|]. split; [exact C1|]. intros Hf. split; [exact HCM|]. rewrite (C3 Hf). lia. }
+    assert (Hne : s_words rv <> []).
+    { intros E. rewrite E in Hib. cbn [length sincreasing] in Hib. destruct Hib as [Hc Hib]. pose proof (sincreasing_last _ _ _ Hib). lia. }
+    (* the preceding context *)
+    rewrite (rb_seq_one_shot cutsb cb (s_words rv) (s_bo rv) _ _ 0 Hsw HrvN HJ Hib). rewrite Hlb.
+    assert (Erv : rvc (s_words rv) (s_bo rv) (length (s_words rv)) = rv).
+    { unfold rvc. rewrite firstn_all. rewrite <- Hsw, firstn_all. destruct rv; reflexivity. }
+    rewrite Erv.
+    pose proof (rb_state_is_concat us ws Hu Hw) as HB. cbn zeta in HB. fold U Mf rv in HB.
+    assert (HB' : let '(a1, l1, r1) := reveal_before N_order T dr rv 0 false (c_left (fst Mf)) (c_right (fst Mf)) in
+                  let '(a2, l2, r2) := if l_full (c_left (fst U)) then reveal_before N_order T dr rv (length (s_words rv)) true l1 r1 else (0%Z, l1, r1) in
+                  ((a1 + a2)%Z, l2, r2) = reveal_before N_order T dr rv 0 (l_full (c_left (fst U))) (c_left (fst Mf)) (c_right (fst Mf))).
+    { destruct (l_full (c_left (fst U))) eqn:EfU.
+      - rewrite (rb_finish rv (c_left (fst Mf)) (c_right (fst Mf)) Hsw Hne (chain_good _ _ HCM)).
+        destruct (reveal_before N_order T dr rv 0 false (c_left (fst Mf)) (c_right (fst Mf))) as [[a1 l1] r1].
+        destruct (reveal_before N_order T dr rv (length (s_words rv)) true l1 r1) as [[a2 l2] r2]. reflexivity.
+      - destruct (reveal_before N_order T dr rv 0 false (c_left (fst Mf)) (c_right (fst Mf))) as [[a1 l1] r1]. f_equal. f_equal. lia. }
+    destruct (reveal_before N_order T dr rv 0 false (c_left (fst Mf)) (c_right (fst Mf))) as [[a1 l1] r1].
+    destruct (if l_full (c_left (fst U)) then reveal_before N_order T dr rv (length (s_words rv)) true l1 r1 else (0%Z, l1, r1)) as [[a2 l2] r2].
+    rewrite <- HB' in HB. destruct HB as [Hr [Hf [Ha Hlen]]].
+    (* the following fragment *)
+    assert (WUM : wf (flatf rs_init (us ++ ws))) by (apply flat_wf; [exact Hord|exact W0]).
+    pose proof (fin_cwf N_order _ WUM) as CUM.
+    assert (HJ2 : J l2 r2 0).
+    { split; [rewrite Hr; destruct CUM as [C1 _ _]; exact C1|]. intros H. specialize (Hlen H). lia. }
+    rewrite (ra_seq_one_shot N_order Hord T dr cutsa ca l2 r2 P 0 HJ2 HCV Hia). rewrite Hla. cbn [skipn]. rewrite firstn_all.
+    assert (Huw : Forall (known T) (us ++ ws)) by (apply Forall_app; split; assumption).
+    pose proof (reveal_after_one_shot N_order Hord T M Inv dr rest_dr ext_ctx (us ++ ws) vs Huw Hv) as H1. cbn zeta in H1.
+    rewrite <- app_assoc in H1. fold V in H1.
+    (* the adjustment of RevealAfter depends on the left state it is given only through its completeness flag *)
+    assert (Eadj : forall l l' r rev seen, l_full l = l_full l' ->
+              fst (fst (reveal_after N_order T dr l r rev seen)) = fst (fst (reveal_after N_order T dr l' r rev seen))).
+    { intros l l' r rev seen E. unfold reveal_after. rewrite E.
+      destruct (extend_loop N_order T dr (s_words r) (s_bo r) (skipn seen (l_ptrs rev)) (negb (l_full l'))) as [[v w] bw].
+      destruct (l_full rev); reflexivity. }
+    rewrite <- (Eadj l2 _ _ _ _ Hf), <- Hr in H1.
+    destruct (l_full (c_left (fst V))) eqn:EfV.
+    - pose proof (ra_finish N_order Hord T dr l2 r2 P 0 HJ2 HCV) as HF.
+      rewrite ra_seen in HF. cbn [skipn] in HF.
+      destruct (ra N_order T dr l2 r2 P) as [[a3 l3] r3].
+      destruct (reveal_after N_order T dr l3 r3 {| l_ptrs := P; l_full := true |} (length P)) as [[a4 l4] r4].
+      assert (EV : c_left (fst V) = {| l_ptrs := P; l_full := true |}) by (unfold P; destruct (c_left (fst V)); cbn in *; subst; reflexivity).
+      rewrite EV, HF in H1. cbn [fst] in H1. lia.
+    - assert (EV : c_left (fst V) = {| l_ptrs := P; l_full := false |}) by (unfold P; destruct (c_left (fst V)); cbn in *; subst; reflexivity).
+      rewrite EV in H1. fold (ra N_order T dr l2 r2 P) in H1.
+      destruct (ra N_order T dr l2 r2 P) as [[a3 l3] r3]. cbn [fst] in H1. lia.
   Qed.
 End RevealBefore.
